@@ -10,6 +10,7 @@ CONSTANTS
   Eager = FALSE
   ArmInFlush = FALSE
   WakeAfterPush = TRUE
+  Overflow = FALSE
 SPECIFICATION FairSpec
 INVARIANTS PendingBound TypeOK NeverStuck
 PROPERTIES NoLostWake
